@@ -252,6 +252,7 @@ def run(prog: Program, rep: Report, tier: str):
     smoothing(prog, rep)
     mixed_radix(prog, rep)
     unlabeled_marker(prog, rep)
+    threshold_twins(prog, rep)
     names.check(prog, rep, FILES, clause="C16.G1", floor=40)
 
 
@@ -517,6 +518,81 @@ def unlabeled_marker(prog: Program, rep: Report):
                    f"'== -1' test: on that branch an unlabeled sample is rewritten like a labeled one", line=cfg.nodes[bypass[0]].lineno
                    if bypass else gi.node.lineno, clause="C16.3")
     rep.floor("label wrappers that test for the unlabeled marker", n, 1)
+
+
+_NEG = {ast.Gt: ast.LtE, ast.GtE: ast.Lt, ast.Lt: ast.GtE, ast.LtE: ast.Gt}
+_FLIP = {ast.Gt: ast.Lt, ast.GtE: ast.LtE, ast.Lt: ast.Gt, ast.LtE: ast.GtE}
+_SYM = {ast.Gt: ">", ast.GtE: ">=", ast.Lt: "<", ast.LtE: "<="}
+
+
+def threshold_twins(prog: Program, rep: Report):
+    """per-sample and bulk label accessors turn a confidence into 'unlabeled' by the same comparison"""
+    rep.rule("G9.threshold-twins", "where a label wrapper marks a sample unlabeled (-1) by comparing a confidence with a threshold "
+             "attribute, the per-sample accessor ('return -1' behind the comparison) and the bulk accessor ('labels[<comparison>] = "
+             "-1') use the same comparison with the same strictness: at confidence == threshold both give the same answer")
+    kdw = prog.cls("KDWrapper")
+
+    def oriented(cmp: ast.Compare, me: str):
+        """(operator class, attribute) with the threshold attribute on the right-hand side"""
+        if len(cmp.ops) != 1 or type(cmp.ops[0]) not in _NEG:
+            return None
+        l, r = cmp.left, cmp.comparators[0]
+        is_thr = lambda e: isinstance(e, ast.Attribute) and isinstance(e.value, ast.Name) and e.value.id == me
+        if is_thr(r) and not is_thr(l):
+            return type(cmp.ops[0]), r.attr
+        if is_thr(l) and not is_thr(r):
+            return _FLIP[type(cmp.ops[0])], l.attr
+        return None
+
+    n = 0
+    for C in prog.subclasses(kdw, include_self=False):
+        bulk = C.methods.get("getall_class")
+        gi = C.methods.get("getitem_class")
+        if bulk is None or gi is None:
+            continue
+        per = {}   # attr -> set of operators under which -1 is returned
+        for f in [gi] + [m for nm, m in C.methods.items() if nm.startswith("_getitem")]:
+            fa = fa_of(prog.raw, f)
+            me = fa.self_name
+            for r, nd in fa.cfg.nodes.items():
+                if not (nd.kind == "stmt" and isinstance(nd.ast, ast.Return) and nd.ast.value is not None
+                        and fa.sym.term(nd.ast.value, r) == ("const", -1)):
+                    continue
+                for e_, pol_, c_, tn_ in fa.cond_parts_at(r):
+                    if isinstance(e_, ast.Compare):
+                        o = oriented(e_, me)
+                        if o is not None:
+                            per.setdefault(o[1], set()).add(o[0] if pol_ else _NEG[o[0]])
+        if not per:
+            continue
+        fb = fa_of(prog.raw, bulk)
+        me = fb.self_name
+        blk = {}
+        for n_, nd in fb.cfg.nodes.items():
+            if nd.kind == "stmt" and isinstance(nd.ast, ast.Assign) and fb.sym.term(nd.ast.value, n_) == ("const", -1):
+                for t in nd.ast.targets:
+                    if isinstance(t, ast.Subscript):
+                        m = t.slice
+                        if isinstance(m, ast.Name):
+                            defs = fb.cfg.reaching().get(n_, {}).get(m.id, set())
+                            vals = [fb.cfg.def_value(d, m.id) for d in defs]
+                            m = vals[0] if len(vals) == 1 else None
+                        if isinstance(m, ast.Compare):
+                            o = oriented(m, me)
+                            if o is not None:
+                                blk.setdefault(o[1], set()).add(o[0])
+        for attr, ops in sorted(per.items()):
+            if attr not in blk:
+                continue
+            n += 1
+            a, b = sorted(_SYM[x] for x in ops), sorted(_SYM[x] for x in blk[attr])
+            rep.decide(a == b, "G9.threshold-twins", bulk, f"self.{attr}", f"both accessors mark 'confidence {a[0]} self.{attr}' unlabeled",
+                       f"getitem_class returns -1 where confidence {' / '.join(a)} self.{attr}, getall_class writes -1 where "
+                       f"confidence {' / '.join(b)} self.{attr}: a sample whose confidence equals the threshold is labeled by one "
+                       f"accessor and unlabeled by the other", clause="C16.1")
+    if n == 0:
+        rep.unk("G9.threshold-twins", kdw, "no-threshold-pair", "no wrapper with a threshold comparison in both accessors found",
+                clause="C16.1")
 
 
 def _reads_samples(fa: FA, e: ast.AST, at: int, depth: int = 5, _seen=None) -> bool:
